@@ -62,6 +62,13 @@ def make_case(prop, seed, i, tier):
             return dict(prop=prop, i=i, kind="unservable", source="random-unservable-" + how, spec=spec, victim=k)
     if rng.random() < 0.4:
         spec["sim"]["max_time"] = rng.choice([0, 1, 2, 3, 5, 8])
+    if rng.random() < 0.35:
+        # a zero-work automatic milestone at the very end: the last task to finish needs no work at all
+        n = len(spec["tasks"])
+        ms = G._simple_task(n, 0.0, [[n - 1, rng.choice([G.FS, G.FF])]], auto=True)
+        spec["tasks"].append(ms)
+        if spec.get("task_order"):
+            spec["task_order"] = spec["task_order"] + [n] if rng.random() < 0.5 else [n] + spec["task_order"]
     return dict(prop=prop, i=i, kind="status", source="random", spec=spec)
 
 
